@@ -589,9 +589,12 @@ def run(res, tier, seed):
 
     # an error value keeps its text when other VMs (other languages) reject the same input afterwards
     drows, _ = common.run_harness(["c19-deferred"], timeout=300)
-    res.cov["error_values_not_shared"] = {"pairs_checked": drows[0].get("checked", 0), "changed": len(drows[0].get("diffs") or [])}
+    res.cov["error_values_not_shared"] = {"pairs_checked": drows[0].get("checked", 0), "lazily_compiled_bodies_checked": drows[0].get("lazy_checked", 0),
+                                          "changed": len(drows[0].get("diffs") or [])}
     for d in (drows[0].get("diffs") or [])[:2]:
-        res.violation({"what": "an error value obtained from one VM changed its text after another VM, configured with another language, rejected the same input",
+        res.violation({"what": ("the syntax error of a lazily compiled body is not reported in the language of the VM that evaluates it"
+                                if d["before"].startswith("lazily compiled") else
+                                "an error value obtained from one VM changed its text after another VM, configured with another language, rejected the same input"),
                        "input_hex": d["in"], "input": bytes.fromhex(d["in"]).decode("utf-8", "replace"), "language_of_the_first_vm": d["langA"],
                        "language_of_the_second_vm": d["langB"], "text_before": d["before"], "text_after": d["after"]})
         found += 1
